@@ -31,6 +31,34 @@ def _run_loom(out_path, preemptions):
     return failed, out
 
 
+def credit_executions(tier, work):
+    """For C03 (credit is never exceeded, for every schedule): the loom executions of the real writer/credit code whose
+    history TLC rejects (WakeTrace.tla) AND in which the credit is not conserved (a frame without a unit of credit or a
+    lost grant).  Returns (number of executions, [records])."""
+    out = os.path.join(work, "wake_c03.ndjson")
+    open(out, "w").close()
+    failed, cargo_out = _run_loom(out, 3 if tier == "quick" else None)
+    lines = [l for l in open(out) if l.strip()]
+    if not lines:
+        raise ToolError("the loom hook produced no executions")
+    uniq = sorted(set(lines))
+    up = os.path.join(work, "wake_c03_u.ndjson")
+    open(up, "w").writelines(uniq)
+    rv = vlib.validate_once("WakeTrace", "WakeTrace", up, timeout=900, raw=True)
+    if '<<"LINES"' not in rv["out"]:
+        log(rv["out"][-2500:])
+        raise ToolError("WakeTrace did not run to the end")
+    bad = [json.loads(m.group(1).encode().decode("unicode_escape"))[1] for m in re.finditer(r'<<"BAD", "(.*)">>', rv["out"])]
+
+    def unconserved(rec):
+        try:
+            okn = list(rec["polls"]).count("ok") + (1 if rec["after"] == "ok" else 0)
+            return rec["cf"] + okn != rec["c0"] + list(rec["ops"]).count("a")
+        except (KeyError, TypeError):
+            return True
+    return len(lines), [r for r in bad if unconserved(r)]
+
+
 def check(prop, tier, seed, replay):
     t0 = time.time()
     vlib.ensure_dirs()
